@@ -33,6 +33,7 @@ from typing import TYPE_CHECKING
 
 import yaml
 
+from src.core.config_parser import ConfigParseError, parse_config_file, parse_pyproject_toml
 from src.core.constants import HEADER_SCAN_LINES
 from src.linter_config.directive_markers import (
     check_general_ignore,
@@ -50,6 +51,8 @@ from src.linter_config.rule_matcher import (
 )
 
 if TYPE_CHECKING:
+    from collections.abc import Callable
+
     from src.core.types import Violation
 
 logger = logging.getLogger(__name__)
@@ -117,7 +120,23 @@ def _load_repo_ignores(project_root: Path) -> list[str]:
     config_file = project_root / ".thailint.yaml"
     if config_file.exists():
         return _parse_config_file(config_file)
+    # Same discovery order as the configuration itself: .thailint.json, then pyproject.toml
+    json_file = project_root / ".thailint.json"
+    if json_file.exists():
+        return _parse_structured_config(json_file, parse_config_file)
+    pyproject_file = project_root / "pyproject.toml"
+    if pyproject_file.exists():
+        return _parse_structured_config(pyproject_file, parse_pyproject_toml)
     return []
+
+
+def _parse_structured_config(config_file: Path, parser: "Callable[[Path], dict]") -> list[str]:
+    """Read the top-level ignore list from a JSON or pyproject.toml configuration."""
+    try:
+        return _extract_ignore_patterns(parser(config_file))
+    except (ConfigParseError, OSError, UnicodeDecodeError) as e:
+        logger.warning("Failed to parse config file %s: %s", config_file, e)
+        return []
 
 
 def _parse_thailintignore_file(ignore_file: Path) -> list[str]:
